@@ -109,6 +109,11 @@ theorem rvw_queueMaxStreamId {s s' : State} {b : Bool} (h : s.queueMaxStreamId =
     rw [← h.1]
     try rfl
 
+theorem rvw_queueMaxIf {s s' : State} {c : Bool} (h : s.queueMaxIf c = some s') : s'.rvw = s.rvw := by
+  rcases queueMaxIf_cases h with rfl | ⟨b, hq⟩
+  · rfl
+  · exact rvw_queueMaxStreamId hq
+
 /-! ### sender-side operations -/
 
 theorem rvw_write {s s' : State} {id n : Nat} {r : Except WriteErr Nat} (h : s.write id n = some (s', r)) :
